@@ -23,9 +23,9 @@ ASSUMPTIONS = ["for .dll names both executable.filename and executable.library.f
                "URL delimiters are paired as the documentation of find_urls describes; URLs never end in ' ) , . ;"]
 EXPECTED_WALL = {"quick": 50, "thorough": 400}
 KINDS = ["ipv4", "domain", "email", "url", "posix", "windows", "exe", "createobject", "pe"]
-REQUIRED = {"judged": 5000, "metamorphic_pairs": 1500, "offset:0": 300, "offset:>=64": 300, "trigger_after_indicator": 100}
-REQUIRED.update({"kind:" + k: 150 for k in KINDS})
-REQUIRED["kind:pe"] = 30
+REQUIRED = {"judged": 625, "metamorphic_pairs": 187, "offset:0": 37, "offset:>=64": 37, "trigger_after_indicator": 12}
+REQUIRED.update({"kind:" + k: 20 for k in KINDS})
+REQUIRED["kind:pe"] = 5
 
 
 def plan(tier, seed):
